@@ -23,6 +23,7 @@ pub enum ReturnValue { FFIError(PathV), NoValue, Value(Primitive) }
 #[verifier::external_body] pub fn i32_to_usize(x: i32) -> (r: Result<usize, VErr>) ensures r is Ok <==> x >= 0, r is Ok ==> r->Ok_0 == x { unimplemented!() }
 #[verifier::external_body] pub fn clone_prim(p: &Primitive) -> (r: Primitive) ensures r == *p { unimplemented!() }
 // the visited list as it is NOW (the callback runs between two visits and may have changed it)
+#[verifier::external_body] pub fn verif_receiver_itself() -> (r: usize) { unimplemented!() }       // marker: the result would be the receiver's own list (nothing known about it as a NEW list)
 #[verifier::external_body] pub struct ListNow { x: usize }
 pub uninterp spec fn items(l: &ListNow) -> Seq<Primitive>;
 impl ListNow {
@@ -136,6 +137,7 @@ def head_of_arm(src, log, arm_name, struct_name):
         Rule("R10", "v . 0 . borrow ( ) . len ( )", "v . len ( )", why="GcCell borrow of the receiver (R10)"),
         Rule("R6", "return Ok ( ( Some ( Primitive :: Vector ( GcVector :: default ( ) ) ) , None ) ) ;", "return Some ( 0usize ) ;", why="result: a new empty list, no bridge (modelled as Some(length of the result))"),
         Rule("R6", "return Ok ( ( Some ( Primitive :: Vector ( GcVector :: new ( Vec :: new ( ) ) ) ) , None ) ) ;", "return Some ( 0usize ) ;", why="result: a new empty list, no bridge"),
+        Rule("R6", "return Ok ( ( Some ( Primitive :: Vector ( v . clone ( ) ) ) , None ) ) ;", "return Some ( verif_receiver_itself ( ) ) ;", why="result: a clone of the receiver's HANDLE, i.e. the receiver itself -- not a new list (the marker is an unknown number: C13 wants a list of its own)"),
     ], log, f"{arm_name}[head]")
     check_closed(b, f"{arm_name}[head]")
     return b
